@@ -74,6 +74,11 @@ def stepLine (st : JState) (line : String) : JState × String :=
              else if !((r.splitOn " ").contains "leak=0") then
               ({ st with specDead := true }, some ("components decoded from malformed bytes were leaked or dropped twice: " ++ r))
              else (st, none))
+          else if r.trimAscii.toString == "panic" && WorldJudge.outOfContract lhs then
+            -- rejected out-of-contract call: nothing is specified about the state afterwards
+            ({ st with specDead := true }, none)
+          else if WorldJudge.outOfContract lhs && !(lhs.startsWith "spawn_cb_at") && !(r.trimAscii.toString.startsWith "nosuch") then
+            ({ st with specDead := true }, some "a bundle naming a component type twice must be rejected")
           else if r.trimAscii.toString == "panic" && !(lhs.startsWith "spawn_cb_at") then
             ({ st with specDead := true }, some "operation panicked inside hecs")
           else match WorldJudge.specLine st.specs lhs r with
